@@ -209,6 +209,13 @@ def strategy_(draw, tier):
     stdin = draw(st.sampled_from(["y\n", "n\n", "\n", "", "Y\n", "yes\nno\ny\n"])) * 3
     spec = {"vols": vols, "nodes": nodes, "env": env, "uid": uid, "cwd": cwd,
             "now": "2021-03-04T05:06:07", "umask": draw(st.sampled_from([0o022, 0o077, 0]))}
+    # "full" scenario: one volume has no free block left (real ENOSPC from the kernel on every
+    # write, whatever layer of Python issues it; names can still be created)
+    full = draw(st.sampled_from([None] * 7 + ["full"])) if vols else None
+    if full:
+        fv = draw(st.sampled_from(vols))
+        spec["vol_size"] = {fv: "3m"}
+        spec["fill"] = [fv]
     return {"spec": spec, "opts": opts, "files": files, "meta": metas, "stdin": stdin,
             "layout": lay, "xdev": xdev, "ro_dirs": ro_dirs}
 
@@ -320,11 +327,13 @@ def run_case(case):
     out.classes.append("layout:" + case["layout"])
     out.classes.append("xdev_fallback:%s" % case.get("xdev", False))
     out.classes.append("ro_dir:%s" % ("+".join(sorted(case.get("ro_dirs", {}).values())) or "no"))
+    out.classes.append("full_volume:%s" % bool(spec.get("fill")))
     out.classes.append("exit:%d" % res.code)
     if nontrivial:
         out.key = [[m["kind"], m["spelling"], m["name_class"], s] for (a, s), m in
                    zip(states, case["meta"])] + [case["layout"], optclass(case["opts"]), case.get("xdev", False),
-                                                 "+".join(sorted(case.get("ro_dirs", {}).values()))]
+                                                 "+".join(sorted(case.get("ro_dirs", {}).values())),
+                                                 bool(spec.get("fill"))]
         out.sample = {"cwd": spec["cwd"], "argv": case["opts"] + case["files"],
                       "layout": case["layout"], "states": states, "exit": res.code}
     return out
